@@ -394,6 +394,10 @@ DEFAULT_LITERALS = [
     ("map-enum-string", {"map": [[{"enum": "E1.A"}, lit_str("a")]]}),
     ("map-string-list", {"map": [[lit_str("k"), {"list": [lit_int(1), lit_int(2)]}]]}),
     ("map-bool-binary", {"map": [[{"bool": True}, lit_str("bb")]]}),
+    ("list-i32", {"list": [lit_int(100), lit_int(100), lit_int(200), lit_int(100)]}),
+    ("list-string", {"list": [lit_str("x"), lit_str("x"), lit_str("y")]}),
+    ("list-bool", {"list": [{"bool": True}, {"bool": True}, {"bool": False}, {"bool": False}]}),
+    ("list-list-i32", {"list": [{"list": [lit_int(1)]}, {"list": [lit_int(1)]}]}),
     ("map-string-map", {"map": [[lit_str("o"), {"map": [[lit_str("i"), lit_int(9)]]}]]}),
     ("list-map", {"list": [{"map": [[lit_str("a"), lit_int(1)]]}, {"map": []}]}),
 ]
